@@ -829,7 +829,7 @@ def check_C12(tier, seed):
         src = {}
         rc, out, st = lib.run_tlc("MC_Mod", "", names=False)
         for mj in lib.tlc_payload(out, "MOD"):
-            if mj["name"] in ("VE", "VA", "VI", "VC", "VX1", "VX2", "VX3"):
+            if mj["name"] in ("VE", "VA", "VI", "VC", "VX1", "VX2", "VX3", "VO", "VP", "VQ"):
                 src[mj["name"]] = Module(mj).text()
         corpus = sorted(glob.glob(os.path.join(lib.REPO, "tests", "tests-asn1c-compiler", "*-OK.asn1"))) + \
             sorted(glob.glob(os.path.join(lib.REPO, "examples", "*.asn1")))
@@ -1255,7 +1255,7 @@ def check_C10(tier, seed):
     mods = {}
     rc, out, st = lib.run_tlc("MC_Mod", "", names=False)
     for m in lib.tlc_payload(out, "MOD"):
-        if m["name"] in (("VE", "VA", "VI", "VC") if tier == "thorough" else ("VE", "VA", "VC")):
+        if m["name"] in (("VE", "VA", "VI", "VC", "VO", "VP", "VQ") if tier == "thorough" else ("VE", "VA", "VC", "VO")):
             mods[m["name"]] = Module(m)
     _, legal, st2 = lib.generate("MC_Legal", ["MaxComps = 2", "Rich = TRUE"], ["Export"], workers=4)
     res.states += st2["distinct"]
